@@ -22,7 +22,8 @@ EXPLANATION = (
     "command a transaction is never released after it was broadcast and every path from building it to a normal "
     "return either broadcasts or releases it."
 )
-TECHNIQUE = "static analysis: lock-scope (lexical async-with) check, SQL site lexing, sibling-branch agreement, CLEANUP handler check, per-variable typestate over CFG paths"
+EXACTNESS = "Second pass (DESIGN.md §10, exactness / completeness halves) — rows handed out for spending are reserved whenever `set_reserved` (default on, no caller switches it off); producer-anchored ownership typestate over the 17 functions that receive a freshly built transaction; the download payment is released in a `finally`; txo rows inserted with ignore_duplicate, never replaced."
+TECHNIQUE = "static analysis: lock-scope (lexical async-with) check, SQL site lexing, sibling-branch agreement, CLEANUP handler check, per-variable typestate over CFG paths; exact fact-set comparison of the tests dominating each effect and refusal (effect / refusal tables), fall-through path queries"
 NOT_DECIDED = "that every output is available again once all builds finished, as a global state equality (the pairing rules are its necessary condition); double spends caused by the server or another process"
 ASSUMPTIONS = ["asyncio.Lock gives mutual exclusion between tasks of one event loop; AIOSQLite.run executes the function on the single writer thread"]
 
